@@ -55,8 +55,11 @@ Contract(o0, oo, T, rec) ==
         active == rec[4]  idle == rec[5]  total == rec[6]
         held == Cardinality({ x \in R(T) : oo.ph[x] = "held" }) + oo.orph
         boundary == op \in {"d", "q", "end"}
+        ncreating == Cardinality({ x \in R(T) : oo.ph[x] = "creating" })
     IN IF active > T.max \/ total > T.max THEN "PROP:pool_over_max"
-       ELSE IF active + idle # total THEN "PROP:pool_active_plus_idle_not_total"
+       \* a connection whose set-up is still running may or may not be counted in `total` already
+       ELSE IF active + idle > total \/ total > active + idle + ncreating
+            THEN "PROP:pool_active_plus_idle_not_total"
        ELSE IF held > T.max THEN "PROP:pool_over_admit"
        ELSE IF boundary /\ held # active THEN "PROP:pool_holders_not_active"
        ELSE IF op = "hand" /\ r # 0 /\ o0.ph[r] # "wait" THEN "PROP:pool_granted_twice"
@@ -83,7 +86,8 @@ ModelStep(pp, T, rec) ==
       [] OTHER -> [p |-> pp, d |-> ""]
 
 Counters(pp, rec) ==
-    IF pp.active # rec[4] \/ pp.idle # rec[5] \/ pp.total # rec[6] THEN "MODEL:connection_counters"
+    IF pp.active # rec[4] \/ pp.idle # rec[5] \/ rec[6] \notin {pp.total, pp.total + pp.creating}
+    THEN "MODEL:connection_counters"
     ELSE IF Len(pp.waitq) # rec[7] THEN "MODEL:pending_counter" ELSE ""
 
 Finish ==
@@ -98,8 +102,10 @@ StepRec ==
         rec == T.log[l]
         o1 == ObsStep(o, T, rec)
         cv == IF v.prop # "" THEN "" ELSE Contract(o, o1, T, rec)
-        ms == IF v.drift = "" THEN ModelStep(pl, T, rec) ELSE [p |-> pl, d |-> ""]
-        dv == IF v.drift # "" THEN "" ELSE IF ms.d # "" THEN ms.d ELSE Counters(ms.p, rec)
+        \* the model is followed up to the first false contract clause (so that `drift` tells whether the
+        \* model with T.dev reproduces the run up to there)
+        ms == IF v.drift = "" /\ v.prop = "" THEN ModelStep(pl, T, rec) ELSE [p |-> pl, d |-> ""]
+        dv == IF v.drift # "" \/ v.prop # "" THEN "" ELSE IF ms.d # "" THEN ms.d ELSE Counters(ms.p, rec)
     IN /\ o' = o1 /\ pl' = ms.p
        /\ v' = [prop |-> IF v.prop # "" THEN v.prop ELSE cv,
                 ppos |-> IF v.prop # "" THEN v.ppos ELSE IF cv # "" THEN l ELSE 0,
@@ -109,7 +115,7 @@ StepRec ==
 
 Next ==
     /\ ti <= NT
-    /\ IF l > Len(Tr.log) THEN Finish ELSE StepRec
+    /\ IF v.prop # "" \/ l > Len(Tr.log) THEN Finish ELSE StepRec
 
 Spec == Init /\ [][Next]_vars
 ===========================================================================
